@@ -9,7 +9,7 @@ for d in seeded/*/; do
   if [ -n "${ONLY:-}" ] && ! echo "$n" | grep -Eq "$ONLY"; then continue; fi
   ids=$(python3 -c "import json;print(' '.join(json.load(open('$d/meta.json'))['quick_checks_run_against_it'].keys()))")
   git -C /repo diff --quiet || { echo "/repo dirty"; exit 2; }
-  git -C /repo apply "$d/patch.diff" || { echo "$n: patch does not apply"; continue; }
+  git -C /repo apply "/verif/${d}patch.diff" || { echo "$n: patch does not apply"; continue; }
   res="{}"
   for id in $ids; do
     out=$(./check "$id" quick 2>&1); rc=$?
